@@ -5,7 +5,6 @@
 package p_lru
 
 import (
-	"errors"
 	"fmt"
 	"math"
 	"sort"
@@ -73,6 +72,9 @@ type Op struct {
 	Key  int    `json:"key,omitempty"`  // index into the key alphabet (taken modulo Keys)
 	Var  int    `json:"var,omitempty"`  // ecache: which of the colliding PKs (modulo NVariants)
 	Fail bool   `json:"fail,omitempty"` // g: the create function, if it gets called by this op, fails
+	// Err (g with Fail): the shape of the error value the failing create function returns (modulo NErrKinds, see errkinds.go):
+	// plain, wrapped, a library error class, a typed nil pointer, a zero-size value, one whose Error method panics, ...
+	Err int `json:"err,omitempty"`
 	// Buf (ecache, g/r): 0 = the PK is a fresh slice; b in 1..NBufs = the PK is the harness' reusable key
 	// buffer b: its content is overwritten with this call's key text and the same backing array is passed
 	// again, so PKs that the cache stored from earlier calls through this buffer change behind its back.
@@ -133,6 +135,7 @@ type Info struct {
 	Constructor          bool // the case is a constructor-refusal case
 	Hits, Misses         int
 	Fails                int // failed creations
+	FailKinds            [NErrKinds]int // ... by the shape of the error value
 	Evictions            int
 	RemoveHit, RemoveMis int
 	ClearNonEmpty        int
@@ -196,6 +199,7 @@ func (i *item) GetExpiresAt() time.Time {
 // world is the harness-owned side of the callbacks.
 type world struct {
 	fail    bool           // outcome of the create call of the GetOrCreate that is about to be made
+	errKind int            // shape of the error a failing create call of that GetOrCreate returns
 	kind    int            // iface: kind of value a successful create call of that GetOrCreate returns
 	lastNil map[string]int // iface: key -> id of the latest creation for the key that returned a nil value
 	creates []string       // canonical form of the pk of every create call of the current (innermost) call
@@ -251,15 +255,15 @@ func (w *world) pkName(pk []string) string {
 
 func (w *world) create(pk string) (int, error) {
 	w.creates = append(w.creates, pk)
-	fail, kind := w.fail, w.kind
+	fail, kind, errKind := w.fail, w.kind, w.errKind
 	if h := w.hook; h != nil {
 		w.hook = nil
-		h()                         // nested calls on the same cache; they have their own callback lists
-		w.fail, w.kind = fail, kind // ... and their own outcomes; a second create call of the outer call sees the outer one
+		h()                                             // nested calls on the same cache; they have their own callback lists
+		w.fail, w.kind, w.errKind = fail, kind, errKind // ... and their own outcomes; a second create call of the outer call sees the outer one
 	}
 	if fail {
 		w.nErr++
-		w.lastErr = fmt.Errorf("create failure #%d", w.nErr)
+		w.lastErr = makeErr(errKind, w.nErr)
 		return -1, w.lastErr
 	}
 	w.nextVal++
@@ -768,7 +772,7 @@ func run(c Case, walk bool, info *Info) *vstat.Violation {
 
 	// getOrCreate executes one GetOrCreate against both sides. prog is the program the create function
 	// runs if this call reaches it; stack holds the keys whose creation is in progress around this call.
-	getOrCreate := func(key, vr int, fail bool, born int, nilKind int, prog []Op, stack []int) (v *vstat.Violation, stop bool) {
+	getOrCreate := func(key, vr int, fail bool, errKind int, born int, nilKind int, prog []Op, stack []int) (v *vstat.Violation, stop bool) {
 		pk := c.pkRepr(key, vr)
 		setBorn(key, born)
 		wantKind := KindValue
@@ -799,7 +803,7 @@ func run(c Case, walk bool, info *Info) *vstat.Violation {
 			}
 		}
 		lenAtMiss := -1
-		w.fail, w.kind = fail, wantKind
+		w.fail, w.kind, w.errKind = fail, wantKind, normErr(errKind)
 		w.hook = func() { // inside the create function, the cache lock is not held
 			if kind == hit {
 				return // a create call on a hit is reported below
@@ -849,12 +853,13 @@ func run(c Case, walk bool, info *Info) *vstat.Violation {
 				return nil, false
 			}
 			if err == nil {
-				return vstat.V("lru:fail-no-error", "%s: the create function failed (%v) but GetOrCreate returned no error (value #%d)", where(), w.lastErr, got), true
+				return vstat.V("lru:fail-no-error", "%s: the create function failed (%s) but GetOrCreate returned no error (value #%d)", where(), errText(w.lastErr), got), true
 			}
-			if !errors.Is(err, w.lastErr) {
-				return vstat.V("lru:fail-wrong-error", "%s: GetOrCreate returned %q which is not the create function's error %q", where(), err, w.lastErr), true
+			if !sameErr(err, w.lastErr) {
+				return vstat.V("lru:fail-wrong-error", "%s: GetOrCreate returned %s which is not the create function's error %s", where(), errText(err), errText(w.lastErr)), true
 			}
 			info.Fails++
+			info.FailKinds[normErr(errKind)]++
 			// Whether the stale item is still resident after a failed re-creation is not determined by the
 			// documentation: accept "removed (callback once)" and follow it; abandon the case on "kept".
 			if !c.NoCB && len(w.dels) == 1 && w.dels[0] == delOf(stale) {
@@ -906,15 +911,16 @@ func run(c Case, walk bool, info *Info) *vstat.Violation {
 			}
 			if fail {
 				if err == nil {
-					return vstat.V("lru:fail-no-error", "%s: the create function failed (%v) but GetOrCreate returned no error (value #%d)", where(), w.lastErr, got), true
+					return vstat.V("lru:fail-no-error", "%s: the create function failed (%s) but GetOrCreate returned no error (value #%d)", where(), errText(w.lastErr), got), true
 				}
-				if !errors.Is(err, w.lastErr) {
-					return vstat.V("lru:fail-wrong-error", "%s: GetOrCreate returned %q which is not the create function's error %q", where(), err, w.lastErr), true
+				if !sameErr(err, w.lastErr) {
+					return vstat.V("lru:fail-wrong-error", "%s: GetOrCreate returned %s which is not the create function's error %s", where(), errText(err), errText(w.lastErr)), true
 				}
 				if v := wantDels("lru:fail-callbacks", nil, true); v != nil {
 					return v, true
 				}
 				info.Fails++
+				info.FailKinds[normErr(errKind)]++
 				if hitSeen {
 					failAfterHit = true
 				}
@@ -992,7 +998,7 @@ func run(c Case, walk bool, info *Info) *vstat.Violation {
 		}
 		switch op.K {
 		case "g":
-			if v, stop := getOrCreate(key, vr, op.Fail, op.Born, op.Nil, op.Nested, stack); v != nil || stop {
+			if v, stop := getOrCreate(key, vr, op.Fail, op.Err, op.Born, op.Nil, op.Nested, stack); v != nil || stop {
 				return v, true
 			}
 		case "r":
@@ -1065,7 +1071,7 @@ func run(c Case, walk bool, info *Info) *vstat.Violation {
 		switch op.K {
 		case "g":
 			setBorn(key, op.Born)
-			w.fail, w.kind = op.Fail, normKind(op.Nil)
+			w.fail, w.kind, w.errKind = op.Fail, normKind(op.Nil), normErr(op.Err)
 			w.hook = func() {
 				if len(op.Nested) > 0 {
 					runNested(op.Nested, append(stack, key))
@@ -1208,7 +1214,7 @@ func run(c Case, walk bool, info *Info) *vstat.Violation {
 			begin(func() string {
 				return fmt.Sprintf("epilogue (after %d calls): GetOrCreate(fresh key %s) [shape=%s cap=%d] before: %s", g, keyName(key), c.Shape, c.Cap, fmtModel(top))
 			})
-			v, _ := getOrCreate(key, 0, false, 0, KindValue, nil, nil)
+			v, _ := getOrCreate(key, 0, false, 0, 0, KindValue, nil, nil)
 			if v == nil {
 				v = ledger()
 			}
@@ -1280,7 +1286,7 @@ func opString(c Case, op Op, key, vr int) string {
 	case "g":
 		out := "create→ok"
 		if op.Fail {
-			out = "create→error"
+			out = "create→error(" + errKindNames[normErr(op.Err)] + ")"
 		}
 		if len(op.Nested) > 0 {
 			out = "create→{" + nestedString(op.Nested) + "}→" + out[len("create→"):]
@@ -1371,7 +1377,7 @@ func (c Case) Hash() uint64 {
 		for _, o := range l {
 			x := uint64(o.K[0]) | uint64(uint8(o.Buf))<<16 | uint64(uint8(o.Born))<<24 | uint64(uint8(o.Nil))<<32
 			if o.Fail {
-				x |= 256
+				x |= 256 | uint64(normErr(o.Err))<<40
 			}
 			mix(x)
 			mix(uint64(int64(o.Key))<<8 | uint64(uint8(o.Var)))
@@ -1424,6 +1430,9 @@ func (i Info) Classes(c Case) []string {
 	add(i.Evictions > 0, "has_eviction")
 	add(i.Hits > 0, "has_hit")
 	add(i.Fails > 0, "has_failed_creation")
+	for k, n := range i.FailKinds {
+		add(n > 0, "failed_creation_error_"+errKindNames[k])
+	}
 	add(i.RemoveHit > 0, "remove_resident")
 	add(i.RemoveMis > 0, "remove_absent")
 	add(i.ClearNonEmpty > 0, "clear_nonempty")
